@@ -202,37 +202,13 @@ theorem C17_leftover_rejected (var : Variant) (ms : ModState) (items : List Item
     (h : ∃ it ∈ items, it.1 ∉ keysOf ms.pars ∧ it.1 ∉ Gen.moduleArgs ++ Gen.timeArgs) :
     ∀ ms', updatePars var ms items ≠ .ok ms' := by
   obtain ⟨it, hit, hnp, hna⟩ := h
-  intro ms'
-  -- the offending item survives `matchPop` and the leftover filter
-  have hrem : ∀ (m : List Item),
-      ((items.filter (fun it => !(keysOf ms.pars).contains it.1)).filter
-        (fun it => !(Gen.moduleArgs ++ Gen.timeArgs).contains it.1)).isEmpty = false := by
-    intro _
-    rw [List.isEmpty_eq_false_iff_exists_mem]
-    refine ⟨it, ?_⟩
-    simp only [List.mem_filter]
-    exact ⟨⟨hit, by simpa using hnp⟩, by simpa using hna⟩
-  have hrem := hrem []
-  unfold updatePars
-  simp only [show Gen.updateParsSteps = [.merge, .matchPop, .parsUpdate, .setMetadata, .timeUpdate, .leftover (.raise .value)] from by decide,
-    uSteps, uStep]
-  cases hp : updateLeaves var false ms.pars (items.filter (fun it => (keysOf ms.pars).contains it.1)) with
-  | error e => simp [hp, Except.map]
-  | ok p1 =>
-      simp only [hp]
-      cases hm : setArgs Gen.metadataTypeChecked
-          ⟨{ ms with pars := p1 }, items.filter (fun it => (keysOf ms.pars).contains it.1),
-            items.filter (fun it => !(keysOf ms.pars).contains it.1)⟩ Gen.moduleArgs ms.metad with
-      | error e => simp [hm, Except.map]
-      | ok m1 =>
-          simp only [hm]
-          cases ht : setArgs false
-              ⟨{ ms with pars := p1, metad := m1 }, items.filter (fun it => (keysOf ms.pars).contains it.1),
-                items.filter (fun it => !(keysOf ms.pars).contains it.1)⟩ Gen.timeArgs ms.time with
-          | error e => simp [ht, Except.map]
-          | ok t1 =>
-              simp only [ht, hrem]
-              simp [Except.map]
+  intro ms' hok
+  -- order-independent: any step list that contains a raising leftover check rejects (the regenerated list does)
+  have hmem : UStep.leftover (.raise .value) ∈ Gen.updateParsSteps := by decide
+  unfold updatePars at hok
+  cases hu : uSteps var ⟨ms, [], items⟩ Gen.updateParsSteps with
+  | error e => simp [hu, Except.map] at hok
+  | ok us' => exact uSteps_leftover var it .value hna Gen.updateParsSteps ⟨ms, [], items⟩ ⟨hit, hnp⟩ hmem us' hu
 
 /-- A supplied `name` / `label` that is not a string is rejected. -/
 theorem C17_metadata_type_checked : Gen.metadataTypeChecked = true := by decide
